@@ -494,6 +494,10 @@ impl DbPool {
             std::fs::create_dir_all(backups_dir)?;
             std::fs::rename(backup_audit_path, new_backup_audit_path)?;
         }
+        // The new owner may not have an audit directory yet (it is created when
+        // a database is added): without it every later exec_mut would apply its
+        // queries and then fail to record them.
+        std::fs::create_dir_all(db_audit_dir(new_owner, &self.config))?;
         let audit_path = db_audit_file(owner, db, &self.config);
         if audit_path.exists() {
             let new_audit_path = db_audit_file(new_owner, new_db, &self.config);
